@@ -156,11 +156,26 @@ func c20Sweep(answers string, version uint32, fundTx *wire.MsgTx) ([]*account.Ac
 		}
 		srv.answers[string(raw)] = c20Answer{kind: c, acct: a}
 	}
+	client, stop, err := c20Dial(srv)
+	if err != nil {
+		return nil, nil, err
+	}
+	defer stop()
+	ctx, cancel := context.WithTimeout(context.Background(), 30*time.Second)
+	defer cancel()
+	accts, err := client.RecoverAccounts(ctx, keys)
+	srv.mu.Lock()
+	hs := append([]string(nil), srv.handshakes...)
+	srv.mu.Unlock()
+	return accts, hs, err
+}
+
+// c20Dial starts the fake auction server and a real auctioneer.Client on it.
+func c20Dial(srv *c20Server) (*auctioneer.Client, func(), error) {
 	lis := bufconn.Listen(1 << 16)
 	gs := grpc.NewServer()
 	auctioneerrpc.RegisterChannelAuctioneerServer(gs, srv)
 	go func() { _ = gs.Serve(lis) }()
-	defer gs.Stop()
 	client, err := auctioneer.NewClient(&auctioneer.Config{
 		ServerAddress: "passthrough:///verif-c20",
 		Insecure:      true,
@@ -171,19 +186,14 @@ func c20Sweep(answers string, version uint32, fundTx *wire.MsgTx) ([]*account.Ac
 		BatchSource: c20NoBatch{}, BatchVersion: order.LatestBatchVersion,
 	})
 	if err != nil {
+		gs.Stop()
 		return nil, nil, err
 	}
 	if err := client.Start(); err != nil {
+		gs.Stop()
 		return nil, nil, err
 	}
-	defer func() { _ = client.Stop() }()
-	ctx, cancel := context.WithTimeout(context.Background(), 30*time.Second)
-	defer cancel()
-	accts, err := client.RecoverAccounts(ctx, keys)
-	srv.mu.Lock()
-	hs := append([]string(nil), srv.handshakes...)
-	srv.mu.Unlock()
-	return accts, hs, err
+	return client, func() { _ = client.Stop(); gs.Stop() }, nil
 }
 
 func c20KeyIndex(k *btcec.PublicKey) int {
